@@ -474,6 +474,16 @@ pub fn run_c15(ctx: &mut Ctx) {
     let n = ctx.n(16_000, 160_000);
     random_histories(ctx, n, "general", 100, if quick { 600 } else { 1500 }, 6);
     random_histories(ctx, n, "auth", 50, 300, 4);
+    // many distinct peers (70..=240 source addresses per history): all validated, all stay validated
+    {
+        let mut rng = ctx.rng("many-peers", 0);
+        for _ in 0..ctx.n(320, 3_200) {
+            let h = gen_many_peers(&mut rng);
+            run_plain(ctx, &h);
+            ctx.count("many-peers-histories");
+        }
+    }
+    ctx.require("many-peers-histories", 100);
     ctx.require("incoming-accepted", 2_000);
     ctx.require("completed-delivered", 1_000);
     ctx.require("response-dropped-outstanding", 1_000);
